@@ -28,6 +28,9 @@ type verifScriptOpts struct {
 	steps    int
 	preSeed  bool
 	nChoices []int
+	// outageBudget: how many replicas may be crashed/isolated at a time
+	// (0 = the property's N-Q; safety invariants such as C02 must hold under any number)
+	outageBudget int
 }
 
 type verifScriptStats struct {
@@ -118,6 +121,13 @@ func verifRunScript(rt *rapid.T, k *kit.Case, s *verifSim, o verifScriptOpts) ve
 	N, Q := s.cfg.N, s.cfg.Q
 	// whether proposals carry the leader's all-record allocator proof (the
 	// MessageDB store takes a sequenced fast path for them)
+	budget := N - Q
+	if o.outageBudget > 0 {
+		budget = o.outageBudget
+		if budget > N-1 {
+			budget = N - 1
+		}
+	}
 	serverIDs := rapid.IntRange(0, 3).Draw(rt, "serverAllocatedIDs") > 0 == s.cfg.Pebble || rapid.IntRange(0, 3).Draw(rt, "serverAllocatedIDs2") == 0
 	if serverIDs {
 		s.flags["proposals carry server-allocated message ids"] = true
@@ -132,7 +142,16 @@ func verifRunScript(rt *rapid.T, k *kit.Case, s *verifSim, o verifScriptOpts) ve
 	// the known finding F-C01-1 is excluded by construction.
 	for c := 0; c < s.cfg.Channels; c++ {
 		if _, err := s.install(c, s.control[c]); err != nil {
+			if 2*Q <= N && errors.Is(err, ch.ErrInvalidConfig) {
+				// a write quorum that is not a strict majority is refused outright
+				s.flags["non-majority write quorum refused at install"] = true
+				k.Key("invalid-topology", N, Q)
+				return st
+			}
 			rt.Fatalf("VERIF-MACHINERY initial install failed: %v", err)
+		}
+		if 2*Q <= N {
+			s.flags["non-majority write quorum ACCEPTED at install"] = true
 		}
 		if o.preSeed {
 			cmd := &verifSimCommand{channel: c, node: 1, proposal: Proposal{Key: verifSimChannelKey(c), Expected: s.control[c].ID, CommandID: s.newCommandID(),
@@ -237,6 +256,16 @@ func verifRunScript(rt *rapid.T, k *kit.Case, s *verifSim, o verifScriptOpts) ve
 		case 3:
 			opening = []string{"divergentTail", "crash", "failover"}
 		}
+	}
+	if 2*Q <= N {
+		// an exact-half (or smaller) write quorum was accepted: aim straight at
+		// the non-intersecting-quorums schedule — acknowledge on a bare quorum,
+		// lose exactly those holders, install on the other half
+		opening = nil
+		for i := 0; i < N-Q; i++ {
+			opening = append(opening, "isolateFollower")
+		}
+		opening = append(opening, "commit", "heal", "crashHolders", "failover")
 	}
 	for step := 0; step < steps; step++ {
 		act := ""
@@ -443,6 +472,15 @@ func verifRunScript(rt *rapid.T, k *kit.Case, s *verifSim, o verifScriptOpts) ve
 			}
 			a.ID.FenceVersion++
 			a.WriteFence = ch.WriteFence{Token: fmt.Sprintf("tok%d", a.ID.FenceVersion), Version: a.ID.FenceVersion, Reason: ch.WriteFenceReasonLeaderTransfer}
+			// production fences carry a lease deadline; the data plane must stay
+			// fenced until the control plane clears the fence, whatever the clock says
+			switch rapid.IntRange(0, 2).Draw(rt, "fenceUntil") {
+			case 1:
+				a.WriteFence.Until = time.Unix(1_000_000, 0) // long elapsed
+				s.flags["write fence with an elapsed lease deadline"] = true
+			case 2:
+				a.WriteFence.Until = time.Now().Add(time.Hour)
+			}
 			s.control[c] = a
 			n := s.node(a.Leader)
 			n.attempted[c] = cloneAuthority(a)
@@ -483,9 +521,29 @@ func verifRunScript(rt *rapid.T, k *kit.Case, s *verifSim, o verifScriptOpts) ve
 					s.flags["write fence cleared"] = true
 				}
 			}
+		case "crashHolders":
+			// crash (within the outage budget) the replicas that hold acknowledged
+			// entries of this channel, the leader first
+			order := []ch.NodeID{s.control[c].Leader}
+			for _, n := range s.nodes {
+				if n.id != s.control[c].Leader {
+					order = append(order, n.id)
+				}
+			}
+			for _, id := range order {
+				if !s.isUp(id) || s.outSet(isolated) >= budget {
+					continue
+				}
+				if v := s.view(id, c); v.err != nil || v.state.LEO == 0 {
+					continue
+				}
+				note("crash holder %d", id)
+				s.crash(id)
+				s.flags["crash"] = true
+			}
 		case "crash":
 			n := verifDrawNode(rt, s, "crashNode", func(n *verifSimNode) bool { return s.isUp(n.id) })
-			if n == nil || s.outSet(isolated) >= N-Q {
+			if n == nil || s.outSet(isolated) >= budget {
 				continue
 			}
 			note("crash %d", n.id)
@@ -499,6 +557,51 @@ func verifRunScript(rt *rapid.T, k *kit.Case, s *verifSim, o verifScriptOpts) ve
 			note("restart %d", n.id)
 			s.restart(n.id)
 			s.flags["restart"] = true
+			// a restarted owner has lost its in-memory fence: an authority older
+			// than the one that sealed its durable log tail must still be refused
+			for cc := 0; cc < s.cfg.Channels; cc++ {
+				if !rapid.Bool().Draw(rt, "staleInstallAfterRestart") {
+					continue
+				}
+				v := s.view(n.id, cc)
+				if v.err != nil || v.state.LEO == 0 {
+					continue
+				}
+				tail := v.state.TailIdentity
+				stale := cloneAuthority(s.control[cc])
+				stale.Leader = n.id
+				stale.WriteFence = ch.WriteFence{}
+				stale.ID = AuthorityID{ChannelEpoch: tail.ChannelEpoch, LeaderTerm: tail.LeaderTerm, FenceVersion: tail.FenceVersion}
+				switch rapid.IntRange(0, 2).Draw(rt, "staleAfterRestartField") {
+				case 0:
+					if stale.ID.FenceVersion <= 1 {
+						continue
+					}
+					stale.ID.FenceVersion--
+				case 1:
+					if stale.ID.LeaderTerm <= 1 {
+						continue
+					}
+					stale.ID.LeaderTerm--
+					stale.ID.FenceVersion += 3
+				case 2:
+					if stale.ID.ChannelEpoch <= 1 {
+						continue
+					}
+					stale.ID.ChannelEpoch--
+					stale.ID.LeaderTerm += 3
+				}
+				ctx, cancel := context.WithTimeout(context.Background(), 20*time.Second)
+				inst, err := n.rt.Log().Install(ctx, stale)
+				cancel()
+				s.logf("stale install after restart ch=%d node=%d id=%+v (durable tail sealed by %d/%d/%d) -> %+v err=%v", cc, n.id, stale.ID, tail.ChannelEpoch, tail.LeaderTerm, tail.FenceVersion, inst, err)
+				if err == nil {
+					s.fail("C04", "stale-install-after-restart", "restarted node %d installed %+v although its durable log tail was sealed by the newer authority %d/%d/%d", n.id, stale.ID, tail.ChannelEpoch, tail.LeaderTerm, tail.FenceVersion)
+				}
+				n.attempted[cc] = cloneAuthority(stale)
+				st.nontrivialC04 = true
+				s.flags["authority older than the durable tail refused after restart"] = true
+			}
 			for cc := 0; cc < s.cfg.Channels; cc++ {
 				if s.control[cc].Leader == n.id && !s.control[cc].WriteFence.Set() {
 					if _, err := s.install(cc, s.control[cc]); err == nil {
@@ -513,7 +616,7 @@ func verifRunScript(rt *rapid.T, k *kit.Case, s *verifSim, o verifScriptOpts) ve
 			n := verifDrawNode(rt, s, "isoNode", func(n *verifSimNode) bool {
 				return s.isUp(n.id) && !isolated[n.id] && (act == "isolate" || n.id != s.control[c].Leader)
 			})
-			if n == nil || s.outSet(isolated) >= N-Q {
+			if n == nil || s.outSet(isolated) >= budget {
 				continue
 			}
 			note("isolate %d", n.id)
@@ -556,7 +659,7 @@ func verifRunScript(rt *rapid.T, k *kit.Case, s *verifSim, o verifScriptOpts) ve
 			// back in as a follower whose log end equals the next proposal's base
 			L := s.control[c].Leader
 			ln := s.node(L)
-			if !s.isUp(L) || isolated[L] || s.outSet(isolated) >= N-Q || N < 3 {
+			if !s.isUp(L) || isolated[L] || s.outSet(isolated) >= budget || N < 3 {
 				continue
 			}
 			if _, ok := ln.installed[c]; !ok {
@@ -777,7 +880,14 @@ func verifC01Weights() verifScriptWeights {
 }
 
 func verifDrawTopology(rt *rapid.T) (int, int) {
-	switch rapid.IntRange(0, 9).Draw(rt, "topology") {
+	switch rapid.IntRange(0, 13).Draw(rt, "topology") {
+	case 10, 12, 13:
+		// even voter counts: majority quorums, and the exact-half quorums the
+		// code refuses (two halves need not intersect)
+		pair := rapid.SampledFrom([][2]int{{2, 2}, {4, 3}, {2, 1}, {4, 2}}).Draw(rt, "evenTopology")
+		return pair[0], pair[1]
+	case 11:
+		return 4, 3
 	case 0:
 		return 1, 1
 	case 1:
